@@ -406,9 +406,7 @@ class BlockCSR(Contract):
                 % (here, list(self.grid), json.dumps({k: v for k, v in (ob.model or {}).items() if not k.startswith('k!')}), ob.clause))
 
 
-GRIDS = [(1,), (2,), (1, 1), (3,), (1, 1, 1)]
-# written and generated but not registered: see notes/C15-c15b.md
-UNFINISHED_GRIDS = [(2, 2)]
+GRIDS = [(1,), (2,), (1, 1), (3,), (1, 1, 1), (2, 2)]
 
 
 def contracts():
